@@ -34,7 +34,7 @@ def run(ctx):
     defect = cc.defect_model_run(ctx)
 
     # 2. scenarios: TLC schedules with faults + single fault / cancel / death sweep
-    scripts = cc.tlc_scripts(e, "C04_gen.cfg", 1500 if th else 260, "tlc")
+    scripts = cc.tlc_scripts(e, "C04_gen.cfg", 1500 if th else 400, "tlc")
     base = []
     pairs4 = ["tworeg", "samereg", "reg2dir", "dir2reg", "samerepo"]
     for sh in e.shapes:
@@ -53,7 +53,7 @@ def run(ctx):
             lambda s: (s["shape"], (s.get("cancel") or {}).get("class")),
             lambda s: (s["shape"], (s.get("death") or {}).get("class")),
             lambda s: tuple(f["kind"] for f in s.get("faults") or [])]
-    sw = cc.cover_sample(rng, sw, 12000 if th else 900, keyf)
+    sw = cc.cover_sample(rng, sw, 12000 if th else 1500, keyf)
     # faults on the requests of objects that several parts of the image share (a waiter depends on another
     # task's copy there), under several random schedules each
     shared = {"idx2": ["L"], "nested": ["L1"], "docker": ["L"], "dup": ["L1"], "art": ["E"], "artidx": ["L1", "E"]}
@@ -70,7 +70,7 @@ def run(ctx):
                         s2.update(id="shared-%d" % e.n, origin="shared", faults=[dict(p, kind=k)], mode="random",
                                   seed=rng.randrange(1 << 30))
                         sh_sw.append(s2)
-    sh_sw = cc.cover_sample(rng, sh_sw, 3000 if th else 320, [lambda s: (s["shape"], s["pair"], s["faults"][0]["class"])])
+    sh_sw = cc.cover_sample(rng, sh_sw, 3000 if th else 480, [lambda s: (s["shape"], s["pair"], s["faults"][0]["class"])])
     # the scenario that shows findings/C04-1 reliably (a class that has produced a violation stays in every tier)
     demo = e.scn("big", "reg2dir", "c04-1-demo", mode="script", cancel_cb={"n": "LB", "occ": 2},
                  script=[{"op": "rel", "host": "src", "class": "manifest_get", "n": "S"},
